@@ -154,7 +154,12 @@ def run(ctx):
         k = e.get("key", {})
         if k.get("kind") == "segment_nonpositive":
             seg_exc.setdefault(k["file"], []).append(k["segment"])
-    tr = J.generate(params_dir, ctx.gen, seg_exc)
+    kind_exc = {}
+    for e in known:
+        k = e.get("key", {})
+        if k.get("kind") == "identifier_duplicate":
+            kind_exc.setdefault((k["file"], k["id_kind"]), []).append(k["value"])
+    tr = J.generate(params_dir, ctx.gen, seg_exc, kind_exc)
     phases = [[os.path.join(ctx.gen, m + ".v") for m in ph] for ph in tr["phases"]]
     gen_files = [p for ph in phases for p in ph]
     lib = V.check_props(ctx, PROP_FILES, gen_files)
@@ -170,6 +175,8 @@ def run(ctx):
     nfiles = 0
     samples = []
     per_file = []
+    nonunique_by_design = []
+    lookups_real = 0
     for rel in sorted(set(ifiles) | set(tfiles)):
         fi, ft = ifiles.get(rel), tfiles.get(rel)
         if fi is None or ft is None or fi["kind"] in ("unknown", "missing") or ft["kind"] == "unknown":
@@ -217,16 +224,31 @@ def run(ctx):
         if len(samples) < 4 and ir and kind.startswith("pure:"):
             samples.append({"file": rel, "index": 0, "implementation": {k: ir[0][k] for k in ("ids", "mw", "key")},
                             "translated": {"mw": trr[0]["mw"], "nums": trr[0]["nums"][:4]}})
-        # real look-up by name
-        lk = fi["data"].get("lookup")
-        if lk is not None:
-            bad = lk.get("unreachable") or []
-            if lk.get("error") or bad:
-                V.violation(ctx, "%s: look-up by name with the real loader does not return every record: %s"
-                            % (rel, lk.get("error") or bad[0]),
-                            {"broken": "clause 'no duplicate identifiers of the kind used for lookup' (PureRecord::from_json, IdentifierOption::Name)",
-                             "file": rel, "call": "PureRecord::from_json(&[name], file, IdentifierOption::Name)",
-                             "unreachable_records": bad[:10], "error": lk.get("error")}, found_input=True)
+        # real look-up, every IdentifierOption (PureRecord::from_json)
+        lks = fi["data"].get("lookup")
+        if lks is not None:
+            for idk, lk in lks.items():
+                ruled = idk in J.unique_kinds(rel)
+                excv = kind_exc.get((rel, idk), [])
+                bad = lk.get("unreachable") or []
+                if not ruled:
+                    if bad or lk.get("error"):
+                        nonunique_by_design.append({"file": rel, "kind": idk, "records_not_returned_for_their_own_identifier": len(bad),
+                                                    "error": lk.get("error")})
+                    continue
+                for v in excv:
+                    if any(x["identifier"] == v for x in bad):
+                        V.report_known(ctx, known_match(known, kind="identifier_duplicate", file=rel, id_kind=idk, value=v))
+                    else:
+                        ctx.notes.append("known finding %s/%s=%r no longer observed" % (rel, idk, v))
+                bad = [x for x in bad if x["identifier"] not in excv]
+                lookups_real += lk.get("queried", 0)
+                if lk.get("error") or bad:
+                    V.violation(ctx, "%s: look-up by %s with the real loader does not return every record: %s"
+                                % (rel, idk, lk.get("error") or bad[0]),
+                                {"broken": "clause 'no duplicate identifiers of the kind used for lookup' (PureRecord::from_json, IdentifierOption %s)" % idk,
+                                 "file": rel, "call": "PureRecord::from_json(&[identifier], file, IdentifierOption::%s)" % idk,
+                                 "unreachable_records": bad[:10], "error": lk.get("error")}, found_input=True)
     # SmartsRecord mirror
     sf = smarts_struct_fields()
     if sf != SMARTS_FIELDS:
@@ -256,7 +278,7 @@ def run(ctx):
             continue
         meta = tr["checks"].get(mod, {"what": "data file", "file": mod})
         failed_checks.append(mod)
-        diag = {k: tags[k] for k in ("BADREC", "DUPNAMES", "DANGLING", "DUPPAIRS", "NONPOS") if k in tags}
+        diag = {k: tags[k] for k in ("BADREC", "DUPNAMES", "DUPKIND", "DANGLING", "BADIDS", "DUPPAIRS", "NONPOS") if k in tags}
         nonempty = {k: v for k, v in diag.items() if any((x[-1] if isinstance(x, tuple) else x) for x in v)}
         what = "obligation of %s (%s %s) does not hold: %s" % (mod, meta["what"], meta["file"], nonempty or V.coq_error(r["out"]))
         rp = {"broken": "coq/gen/C15/%s.v (%s)" % (mod, meta["what"]), "file": meta["file"], "coq_error": V.coq_error(r["out"]),
@@ -265,7 +287,9 @@ def run(ctx):
         # attach what the real loaders did
         for b in impl.get("binary_lookup", []):
             if b["file"] == meta["file"]:
-                rp["real_loader"] = [x for x in b["result"].get("lookups", []) if not x.get("resolved")][:10]
+                rp["real_loader"] = [x for x in b["result"].get("lookups", []) if not x.get("resolved") and
+                                     all(x["kind"] in J.unique_kinds(f) and not kind_exc.get((f, x["kind"])) for f in b["collections"][x["collection"]])][:10]
+                rp["call"] = "Parameter::from_multiple_json(&[([query1], file1), ([query2], file2)], Some(binary file), IdentifierOption::<kind>)"
         for t in impl.get("gc", {}).get("tables", []):
             if t.get("table") == meta["file"]:
                 rp["real_loader"] = [x for x in t.get("rows", []) if not x.get("ok")][:10] or t.get("error")
@@ -293,19 +317,27 @@ def run(ctx):
 
     # ---------------------------------------------------------------- real loaders vs model
     nlook = 0
+    nlook_design_unresolved = [0]
     for b in impl.get("binary_lookup", []):
         unresolved = []
         for x in b["result"].get("lookups", []):
+            coll = b["collections"][x["collection"]]
+            ruled = all(x["kind"] in J.unique_kinds(f) and not kind_exc.get((f, x["kind"])) for f in coll)
+            if not ruled:
+                if not x.get("resolved"):
+                    nlook_design_unresolved[0] += 1
+                continue
             nlook += 1
             if not x.get("resolved"):
                 unresolved.append(x)
         mod = "B_" + J.modname(b["file"])
         if unresolved and mod not in failed_checks:   # otherwise already reported with the obligation
             x = unresolved[0]
-            V.violation(ctx, "%d binary record(s) of %s are not found again by the real loader, first: record %d (%s / %s): %s"
-                        % (len(unresolved), b["file"], x["index"], x["id1"], x["id2"], x.get("error") or x.get("got")),
+            V.violation(ctx, "%d binary look-up(s) of %s do not return the record's own parameters with the real loader, first: record %d by %s (%s / %s): %s"
+                        % (len(unresolved), b["file"], x["index"], x["kind"], x["query1"], x["query2"],
+                           x.get("error") or ("dangling; loader silently returns %s instead of %s" % (x.get("got"), x.get("expected")) if x.get("dangling") else x.get("got"))),
                         {"broken": "correspondence: Parameter::from_multiple_json vs bin_refs_okb", "file": b["file"],
-                         "call": "Parameter::from_multiple_json(&[([id1], file1), ([id2], file2)], Some(binary file), IdentifierOption::Name)",
+                         "call": "Parameter::from_multiple_json(&[([id1], file1), ([id2], file2)], Some(binary file), IdentifierOption::<kind>)",
                          "lookups": unresolved[:10]}, found_input=True)
         if "error" in b["result"]:
             V.violation(ctx, "binary look-up could not run for %s: %s" % (b["file"], b["result"]["error"]),
@@ -411,6 +443,11 @@ def run(ctx):
         "axioms_reported": lib["axioms"],
         "per_file": per_file,
         "binary_lookups_on_real_loader": nlook,
+        "binary_lookups_by_kinds_not_unique_by_design_unresolved_(informational)": nlook_design_unresolved[0],
+        "pure_lookups_on_real_loader": lookups_real,
+        "identifier_kinds_required_unique": J.UNIQUE_KINDS_DEFAULT,
+        "identifier_kinds_not_unique_by_design": J.UNIQUE_KINDS_EXCEPT,
+        "lookups_by_kinds_not_required_unique_(informational)": nonunique_by_design,
         "gc_assembly_comparisons": gc_cmp,
         "gc_assembly_worst_relative_difference": gc_worst,
         "gc_assembly_rtol": GC_RTOL,
@@ -429,7 +466,10 @@ def run(ctx):
         "rule": "complete enumeration: every record of every *.json of the five directories (rehner2023_binary.json excluded by name)",
     }
     V.write_evidence(ctx, "proof", cov, [
-        "identifier kind used for look-up is `name` (default IdentifierOption of the python API and of the documentation)",
+        "look-up may use any IdentifierOption: cas, name, iupac_name, smiles, inchi must each be duplicate free in every pure / gc file, "
+        "except (documented design) cas/iupac_name/smiles/inchi in rehner2020.json (six water parametrisations distinguished by name) and "
+        "cas/smiles/inchi in the SAFT-VRQ Mie files (hydrogen spin isomers; README: use name); formula is never required unique (isomers)",
+        "a binary identifier must agree on EVERY kind it states with one record of the accompanying collection",
         "positivity of m, sigma, epsilon_k is required of pure SAFT records and of segment records; of ideal-gas records only a "
         "positive molar weight where one is stated (DIPPR records carry none; the model never reads it)",
         "a binary file accompanies: gross2002_binary -> gross2001+gross2002; held2014_binary -> held2014_w_permittivity_added; "
